@@ -145,3 +145,21 @@ fn format_extraction<TCompilationProfile: CompilationProfile>(
 fn push_indented_line_break(output: &mut String, indent: usize) {
     output.push_str(&format!("\n{}", "  ".repeat(indent)));
 }
+
+#[cfg(feature = "isographlabs_isograph_verif")]
+pub mod verif_hook {
+    //! Verification hooks: access to the private formatting functions.
+    use super::*;
+
+    pub fn get_range_of_extraction(extraction: &IsoLiteralExtraction, content: &str) -> Range {
+        super::get_range_of_extraction(extraction, content)
+    }
+
+    pub fn format_extraction<TCompilationProfile: CompilationProfile>(
+        db: &IsographDatabase<TCompilationProfile>,
+        extraction: &IsoLiteralExtraction,
+        relative_path_to_source_file: RelativePathToSourceFile,
+    ) -> Option<String> {
+        super::format_extraction(db, extraction, relative_path_to_source_file).to_owned()
+    }
+}
